@@ -38,10 +38,12 @@ COMMENTS = ['PI_CONTACT_INFO', 'PLATFORM', 'LOCATION', 'ASSOCIATED_DATA',
 
 
 def ncases(tier):
-    return N[tier]
+    return N[tier] + 1
 
 
 def gen(rng, idx, tier, seed):
+    if idx >= N[tier]:
+        return {'sample': True}
     nrec = int(rng.choice([1, 2, 3, 5, 10, 50, 200]))
     nvar = int(rng.integers(1, 9))
     vars_ = []
@@ -238,7 +240,48 @@ def parse_text(text, nvars_expected, nrec_expected):
     return p
 
 
+def run_sample(spec, res):
+    """the ICARTT sample bundled with the library (space-delimited, real
+    header comments): read -> write -> read (also by auto-detection) ->
+    write -> read"""
+    import PseudoNetCDF as pnc
+    from PseudoNetCDF.icarttfiles.ffi1001 import ffi1001, ncf2ffi1001
+    from PseudoNetCDF.testcase import icarttfiles_paths
+    src = [v for v in icarttfiles_paths.values()][0]
+    problems = []
+    with harness.casedir() as d:
+        try:
+            f = ffi1001(src)
+            res.hook('reader.return')
+            s0 = snap(f)
+            indep = str(getattr(f, 'INDEPENDENT_VARIABLE', 'Start_UTC'))
+            prev, cur = s0, f
+            for n, who in ((1, 'sample cycle 1'), (2, 'sample cycle 2')):
+                p = os.path.join(d, 'c%d.ict' % n)
+                ncf2ffi1001(cur, p).close()
+                res.hook('writer.return')
+                cur = ffi1001(p)
+                res.hook('reader.return' if n == 1 else
+                         'second-cycle.return')
+                now = snap(cur)
+                problems += compare(prev, now, indep, who)
+                prev = now
+            h = pnc.pncopen(p)
+            res.hook('auto.return')
+            if type(h).__name__ != 'ffi1001':
+                problems.append('sample: auto-detection chose %s'
+                                % type(h).__name__)
+        except Exception as e:
+            problems.append('sample raised %r' % (e,))
+    res.ev(digest(spec), True, ['sample'])
+    if problems:
+        res.viol('icartt-roundtrip-differs:sample', '; '.join(problems[:5]),
+                 problems=problems[:10])
+
+
 def run(spec, res):
+    if spec.get('sample'):
+        return run_sample(spec, res)
     import PseudoNetCDF as pnc
     from PseudoNetCDF.icarttfiles.ffi1001 import ffi1001, ncf2ffi1001
     f = build(spec)
